@@ -5128,7 +5128,11 @@ class DecRule:
 
     def to_affine(self):
 
-        if self.roaffine is not None:
+        # the cached expression is only valid for the number of random components it was
+        # built with: a random variable declared afterwards widens it (same coefficients)
+        stale = (self.roaffine is not None and self.depend is not None and
+                 self.depend.shape[1] < self.model.sup_model.vars[-1].last)
+        if self.roaffine is not None and not stale:
             return self.roaffine
         else:
             if self.depend is not None:
@@ -5138,8 +5142,11 @@ class DecRule:
                                      dtype=int)
                     self.depend = np.concatenate((self.depend, extra), axis=1)
                 num_ones = self.depend.sum()
-                var_coeff = self.model.dvar(num_ones)
-                self.var_coeff = var_coeff
+                if stale:
+                    var_coeff = self.var_coeff
+                else:
+                    var_coeff = self.model.dvar(num_ones)
+                    self.var_coeff = var_coeff
                 row_ind = np.where(self.depend.flatten() == 1)[0]
                 col_ind = var_coeff.get_ind()
                 num_rand = self.model.sup_model.vars[-1].last
